@@ -299,6 +299,47 @@ def run_spots(spec, ctx):
     ctx.sample({"planet": nm, "finder": fn, "variant": variant, "query": js[0]})
 
 
+# -- every single event of the range: one query per period ---------------------------------------------------
+
+def run_every_event(spec, ctx):
+    """spec = (variant index, j_from, j_to): queries one mean period apart, so that every event of the
+    stretch is the answer to at least one query; the answer must exist (no exception), lie within one
+    period of its query, never move backwards and follow its predecessor by 0.8 .. 1.25 periods (or
+    be the same event).  A finder that fails for ONE event in six thousand years is seen here."""
+    vi, j0, j1 = spec
+    nm, fn, variant, per = variants()[vi]
+    q = j0
+    prev = None
+    n_ev = 0
+    while q <= j1:
+        ctx.evals += 1
+        case = {"planet": nm, "finder": fn, "variant": variant, "query": q,
+                "year": fast().date(int(math.floor(q + 0.5)))[0]}
+        try:
+            re, _ = call(nm, fn, variant, q)
+        except Exception as ex:
+            ctx.viol(case, "%s.%s(%s) at JDE %r raised %r" % (nm, fn, variant, q, ex), site="finder_exception")
+            q += per
+            continue
+        far = abs(re - q) / per
+        if far > 1.0:
+            ctx.viol(case, "%s.%s(%s) at JDE %r returns JDE %r, %.3f periods away" % (nm, fn, variant, q, re, far),
+                     dev=far, site="far")
+        if prev is not None and re - prev > 1e-6:
+            g = (re - prev) / per
+            n_ev += 1
+            if g > 2.5:
+                ctx.viol(case, "%s.%s(%s): results for queries one period apart are %.3f periods apart (an event is "
+                         "skipped)" % (nm, fn, variant, g), dev=g, site="gap")
+        prev = re if prev is None or re > prev else prev
+        q += per
+    ctx.nt_count += n_ev
+    ctx.count("distinct_events", n_ev)
+    ctx.outcome((nm, fn, variant, n_ev))
+    ctx.obs(spec, n_ev)
+    ctx.sample({"planet": nm, "finder": fn, "variant": variant, "from_jde": j0, "to_jde": j1})
+
+
 def check_range(case):
     nm, fn = case["planet"], case["finder"]
     out = []
@@ -417,7 +458,14 @@ def clauses(tier):
               for (nm, fn, variant, per) in V
               for n in ((2, 3) if tier == "thorough" else (2,))
               for h in itertools.permutations(RE_DATES, n)]
+    every = []
+    for vi, (nm, fn, variant, per) in enumerate(V):
+        nseg = max(1, min(16, int((j_hi - j_lo) / (per * 200))))
+        seg = (j_hi - j_lo - 2 * per) / nseg
+        for k in range(nseg):
+            every.append((vi, j_lo + per + k * seg, j_lo + per + (k + 1) * seg))
     return [
+        Clause("every_event", every, run_every_event, replay_sweep, floor=50000),
         Clause("reused_epoch", chunks(reused, 32), run_reused, check_reused_epoch, floor=1000, shape="H"),
         Clause("spot_events", spots, run_spots, replay_sweep, floor=1000),
         Clause("sweeps", sweeps, run_sweep, replay_sweep, floor=1000),
